@@ -245,8 +245,56 @@ func c05(r *vlib.Run) int {
 	}
 	os.RemoveAll(scratch)
 	c05Wire(r)
+	c05SlowClient(r)
 	c05E2E(r)
 	return n / 2
+}
+
+// c05SlowClient: a partial transmission of hundreds of groups is still on its way to a client that takes its time per
+// message when the input ends (a forced transmission one line before the end of the only file): the final result must
+// still hold every group.
+func c05SlowClient(r *vlib.Run) {
+	rng := r.Rng("slowclient")
+	n := r.N(24, 200)
+	scratch := r.Dir("c05slow")
+	var cases []interface{}
+	var sizes []int
+	for i := 0; i < n; i++ {
+		groups := 300 + rng.Intn(900)
+		var lines []string
+		for g := 0; g < groups; g++ {
+			lines = append(lines, fmt.Sprintf("id=k%05d|v=%d", g, 1+g%7))
+		}
+		out := filepath.Join(scratch, fmt.Sprintf("s%d.csv", i))
+		pc := pipeCase{Query: "select id,count($line),sum(v) group by id logformat generickv outfile " + out, Outfile: out, SlowClientUs: 100 + rng.Intn(400),
+			Servers: []pipeServer{{Host: "slow", Files: []pipeFile{{Lines: lines, Cuts: []int{groups - 1 - rng.Intn(3)}}}}}}
+		cases = append(cases, c05Case{Central: pc, Parted: pipeCase{Query: pc.Query, Outfile: out, Servers: []pipeServer{{Host: "slow", Files: []pipeFile{{Lines: lines[:1]}}}}}})
+		sizes = append(sizes, groups)
+	}
+	results, crashes := r.RunBatchesOpts("c05", cases, vlib.BatchOpts{Size: 12, Workers: 8})
+	for range crashes {
+		r.Violation("pipeline-crash", map[string]interface{}{"tier": "slow client"})
+	}
+	for i, raw := range results {
+		if raw == nil {
+			continue
+		}
+		var res c05Result
+		json.Unmarshal(raw, &res)
+		r.Eval(fmt.Sprintf("slow-client|%d", sizes[i]))
+		r.Count("runs_with_a_transmission_in_flight_at_the_end_of_input", 1)
+		_, rows := mq.ParseCSV(res.Central.CSV)
+		bad := 0
+		for _, row := range rows {
+			if len(row) != 3 || row[1] != "1" {
+				bad++
+			}
+		}
+		if res.Central.Err != "" || len(rows) != sizes[i] || bad > 0 {
+			r.Violation("partitioned-vs-reference", map[string]interface{}{"tier": "slow client: forced transmission right before the end of the input, client takes 100-500 us per message",
+				"groups": sizes[i], "rows_in_result": len(rows), "rows_with_a_count_other_than_1": bad, "messages": res.Central.Messages, "error": res.Central.Err})
+		}
+	}
 }
 
 // c05Wire: partial results of magnitudes no generated file reaches (counts of millions and billions of lines, sums
